@@ -1,7 +1,7 @@
 #!/bin/bash
 # usage: mkwt.sh <ID>...   scratch worktrees of /repo for independent sub-agents (seeded breaking changes); removed after use
 for id in "$@"; do
-  d=/tmp/wt-${id}f
+  d=/tmp/wt-${id}g
   git -C /repo worktree add --detach $d HEAD >/dev/null 2>&1 || { echo "worktree $d failed"; continue; }
   cp /tmp/r4/$id.json $d/PROPERTY.json
   [ -d /tmp/wt-base/target ] && cp -r /tmp/wt-base/target $d/target
